@@ -2151,7 +2151,6 @@ class PersistedRDD(RDD):
         self.prev = prev
         self.storageLevel = storageLevel
         self._cache_manager = None
-        self._cid = None
 
     def compute(self, split, task_context):
         # the cache id is kept in a local variable: this object is shared
@@ -2160,7 +2159,6 @@ class PersistedRDD(RDD):
             cid = None
         else:
             cid = (self._rdd_id, split.index)
-        self._cid = cid
 
         if not task_context.cache_manager.has(cid):
             data = list(self.prev.compute(split, task_context._create_child()))
@@ -2173,11 +2171,16 @@ class PersistedRDD(RDD):
         return iter(data)
 
     def unpersist(self, blocking=False):
-        if self._cache_manager:
-            self._cache_manager.delete(self._cid)
+        # remove the entries of all partitions from the driver's cache
+        # (entries computed by pool workers are joined into it)
+        for cache_manager in (self.context._cache_manager, self._cache_manager):
+            if cache_manager is None:
+                continue
+            for partition in self.partitions():
+                cache_manager.delete((self._rdd_id, partition.index))
 
-        unpersisted_rdd = RDD(self.partitions(), self.context)
-        return unpersisted_rdd
+        # the same dataset without persistence
+        return self.prev
 
 
 class EmptyRDD(RDD):
